@@ -27,3 +27,15 @@ pub assume_specification<T, E, U, F: FnOnce(T) -> Result<U, E>>[ Result::<T, E>:
         s is Err ==> r is Err && r->Err_0 == s->Err_0,
         s is Ok ==> f.ensures((s->Ok_0,), r),
 ;
+
+pub assume_specification<T, F: FnOnce() -> Option<T>>[ Option::<T>::or_else ](o: Option<T>, f: F) -> (r: Option<T>)
+    requires o is None ==> f.requires(()),
+    ensures
+        o is Some ==> r == o,
+        o is None ==> f.ensures((), r),
+;
+
+pub assume_specification[ u16::div_ceil ](a: u16, b: u16) -> (r: u16)
+    requires b != 0
+    ensures r as int == (a as int + b as int - 1) / (b as int)
+;
